@@ -997,6 +997,16 @@ typedef struct {
 	unsigned char saved_finished[24];
 
 	/*
+	 * Set when an initial handshake starts, cleared when it
+	 * completes. While it is set, the session parameters may hold
+	 * the session ID, version and cipher suite of a ServerHello
+	 * whose sender was never authenticated, along with a master
+	 * secret that does not belong to them: such a "session" must
+	 * not be offered for resumption.
+	 */
+	unsigned char hs_unfinished;
+
+	/*
 	 * Behavioural flags.
 	 */
 	uint32_t flags;
